@@ -228,9 +228,9 @@ func cmdCheck(args []string) {
 		if *tier == "thorough" && hs.Thorough != nil {
 			params = hs.Thorough
 		}
-		cfg := &RunConfig{Workers: *workers, Unwind: 64, TimeoutMs: 10000, Profile: true, Params: params, Seed: seed}
+		cfg := &RunConfig{Workers: *workers, Unwind: 50000, MaxSteps: 20000000, TimeoutMs: 10000, Profile: true, Params: params, Seed: seed}
 		if *tier == "thorough" {
-			cfg.Unwind = 256
+			cfg.Unwind = 200000
 			cfg.TimeoutMs = 60000
 		}
 		if v, ok := params["_unwind"]; ok {
